@@ -278,7 +278,8 @@ fn shape_hash(target: &Target, templates: &[(String, String)]) -> u64 {
 pub fn execute(sc: &RenderScenario, stats: &mut Stats) -> Outcome {
     let mut out = Outcome::default();
     let mut log = Fnv::new();
-    let prop = sc.property.as_str();
+    // writer/channel/purity invariants belong to C18 whichever check runs this engine
+    let prop = "C18";
     ahash::sim::reset(Mode::PerInstance, sc.hash_base);
     if sc.f1_probes {
         out.violations.extend(f1_probes(sc.hash_base, stats));
